@@ -191,6 +191,57 @@ func (c *c15Case) body() {
 	_ = doneClosedSeen
 }
 
+// c15ReuseBody: one Executor value used for several executions. An execution started from it, before
+// or after another one is cancelled through its ExecutionResult, returns what it returns on its own.
+func c15ReuseBody(stack []Spec, script1, script2 []Out, cancelAt, secondAt time.Duration, second string) func() {
+	pv, pe, pinvs := plainOutcome(stack, script2)
+	return func() {
+		env := NewEnv(stack)
+		env.Reduce = true
+		x1, x2 := env.NewExe(script1), env.NewExe(script2)
+		ex := failsafe.NewExecutor[int](env.Policies...)
+		r1 := ex.GetWithExecutionAsync(x1.Fn)
+		var wg vsync.WaitGroup
+		if cancelAt >= 0 {
+			wg.Add(1)
+			vrt.GoH("canceller", func() {
+				defer wg.Done()
+				vrt.Sleep(int64(cancelAt))
+				env.obs()
+				r1.Cancel()
+				env.obs()
+			})
+		}
+		var v int
+		var err error
+		wg.Add(1)
+		vrt.GoH("second", func() {
+			defer wg.Done()
+			if secondAt < 0 {
+				r1.Get()
+			} else {
+				vrt.Sleep(int64(secondAt))
+			}
+			env.obs()
+			switch second {
+			case "async":
+				v, err = ex.GetWithExecutionAsync(x2.Fn).Get()
+			case "sync":
+				v, err = ex.GetWithExecution(x2.Fn)
+			case "run-async":
+				err = ex.RunWithExecutionAsync(func(e failsafe.Execution[int]) error { var e2 error; v, e2 = x2.Fn(e); return e2 }).Error()
+			}
+			env.obs()
+		})
+		wg.Wait()
+		r1.Get()
+		vrt.Mark(fmt.Sprintf("second=(%d,%s) invs=%d", v, errStr(err), len(x2.Invs)))
+		if v != pv || (err != pe && !(err != nil && pe != nil && err.Error() == pe.Error())) || len(x2.Invs) != pinvs {
+			vrt.Fail(fmt.Sprintf("the second execution from the reused Executor returned (%d,%v) after %d invocations; on its own it returns (%d,%v) after %d", v, err, len(x2.Invs), pv, pe, pinvs))
+		}
+	}
+}
+
 var errUnknown = errors.New("unknown")
 
 // nopExec stands in for the Execution in entry points that do not pass one to the function.
@@ -280,6 +331,17 @@ func c15Scenarios(tier string) []*Scenario {
 	add(&c15Case{name: "retry-cancel-blocking", stack: []Spec{retry}, script: []Out{{Err: E1, Block: true}}, entry: "GetWithExecution", readers: readerSets[2], cancelAt: 15})
 	add(&c15Case{name: "bare-cancel", stack: nil, script: []Out{{V: 1, Block: true}}, entry: "GetWithExecution", readers: readerSets[0], cancelAt: 15})
 	add(&c15Case{name: "retry-cancel-slow-return", stack: []Spec{retry}, script: []Out{{Err: E1, Block: true, Dur: 30}}, entry: "GetWithExecution", readers: readerSets[0], cancelAt: 15})
+	// one Executor value reused: after a cancelled execution, after a completed one, and overlapping one that is cancelled
+	okAfter := []Out{coop(10, E1, 0), coop(10, nil, 1)}
+	for _, st := range [][]Spec{{retry}, {hedge}, {{Kind: KFallback, FbV: 9}, retry}, nil} {
+		for _, second := range []string{"async", "sync", "run-async"} {
+			for _, c := range []struct{ cancelAt, secondAt time.Duration }{{15, -1}, {-1, -1}, {15, 5}, {15, 15}, {15, 25}} {
+				c := c
+				name := fmt.Sprintf("C15/reuse/%s [%s] first=%s cancel@%d second=%s@%d", second, stackStr(st), scriptStr(failing), int64(c.cancelAt), scriptStr(okAfter), int64(c.secondAt))
+				out = append(out, &Scenario{Name: name, Bound: bound, Reduce: true, Body: c15ReuseBody(st, failing, okAfter, c.cancelAt, c.secondAt, second)})
+			}
+		}
+	}
 	return out
 }
 
@@ -289,7 +351,7 @@ func init() {
 		Property:  "C15",
 		Technique: "stateless schedule exploration (deviation-bounded, happens-before state cache) of the async runner, concurrent readers of the ExecutionResult and a canceller, with a sync/async differential",
 		Rule: "one execution = one complete schedule of the async runner thread, 1-3 reader threads each doing a sequence of Done/IsDone/Get/Result/Error, an optional Cancel at a chosen virtual instant, for all four async entry points; " +
-			"the expected values come from running the same program synchronously; distinct = distinct observation logs",
+			"the expected values come from running the same program synchronously; plus one Executor value reused for a second execution (sync and async) after, and overlapping with, an execution that is cancelled; distinct = distinct observation logs",
 		Assume: []string{"IsDone may become true one step before Done is closed (no lock-free implementation can make the two atomic); what is required: Done closed => IsDone true for ever, IsDone true => listeners have run",
 			"a Cancel 'takes effect before completion' when it has returned while an invocation is still running or the program still had invocations to make"},
 		Units: func(tier string) []Unit {
